@@ -112,6 +112,28 @@ def trees(tier):
         for n in nxt:
             out.append(('d%d' % (3 + k) if tier == 'quick' else 'd%d' % (3 + k), n))
         level = nxt[::3] if k >= 1 else nxt
+    # literals of very small / very large magnitude, inside products and quotients that bring the value back to order 1
+    # (an absolute comparison cannot see 1e-18 against 0; the rescaled value can), and n-ary min / max with the extreme
+    # in every argument position
+    for tiny, huge in (('1e-18', '1e18'), ('3e-25', '1e25'), ('2.5e-300', '1e300'), ('7e-17', '1e16')):
+        T_, H_ = ('num', tiny), ('num', huge)
+        out.append(('mag', ('*', ('*', T_, ('id', 'A')), H_)))
+        out.append(('mag', ('*', H_, ('*', ('id', 'C'), T_))))
+        out.append(('mag', ('/', ('*', T_, ('id', 'A')), ('*', T_, ('id', 'S')))))
+        out.append(('mag', ('/', ('id', 'A'), ('*', H_, T_))))
+        out.append(('mag', ('*', ('exp', ('neg', ('*', T_, ('id', 'A')))), ('id', 'Q'))))
+        out.append(('mag', ('*', ('+', ('id', 'A'), T_), ('id', 'S'))))
+        out.append(('mag', ('log', ('*', ('*', T_, ('id', 'S')), H_))))
+        out.append(('mag', ('^', ('*', T_, H_), ('id', 'x2'))))
+    four = [('id', 'A'), ('id', 'x2'), ('id', 'C'), ('id', 'O'), ('id', 'S')]
+    for op in ('min', 'max'):
+        for n_ in (3, 4, 5):
+            for perm_ in itertools.permutations(four, n_):
+                if n_ == 5 and perm_[0] != four[0] and perm_[-1] != four[0]:
+                    continue
+                out.append(('nary', (op,) + perm_))
+        out.append(('nary', (op, ('id', 'A'), (op, ('id', 'C'), (op, ('id', 'S'), ('id', 'k_1'))))))
+        out.append(('nary', (op, (op, ('id', 'A'), ('id', 'C')), (op, ('id', 'S'), ('id', 'k_1')))))
     return out
 
 
